@@ -18,6 +18,12 @@ CHECKS = {
  "C10": dict(cat="other", tech="abstract interpretation of optimised LLVM IR; fadd/fsub/fmul/fdiv/sqrt primitive forms, sign-bit form for negation",
    text="Every float vector type x configuration: + - * / (compound, ++/--) and sqrt must be exactly one IEEE primitive (no fast-math flag) on the same lanes of both operands; unary minus must be the sign-bit flip. The primitive is the correctly rounded operation under the current MXCSR mode by definition.",
    note=TB, ref="4/C10"),
+ "C03": dict(cat="other", tech="abstract interpretation of optimised LLVM IR; boolean normal forms over mask bits under the representation invariant (assume on inputs, guarantee on outputs)",
+   text="All mask operations of all mask types x configuration (& | ^ ! && || == != count any all none extract<I>/insert<I> for every I, construction from bool / array<bool>, Vector(mask), set_bits, mask(Vector)) are summarised into boolean formulas over the lane truth values and must equal the specified formula; results must be in canonical representation (k-register: bits >= N clear; lane mask: uniform lanes).",
+   note=TB + "; memory passed as std::array<bool,N> holds valid bools (0/1)", ref="4/C03"),
+ "C04": dict(cat="other", tech="abstract interpretation of optimised LLVM IR; bitwise/shift/rotate normal forms, x86 shift intrinsics by SDM saturation semantics, every compile-time amount enumerated",
+   text="& | ^ ~, shifts by scalar / per-lane vector / compile-time amount (every S in [0,bits]) and rotations (compile-time amounts up to 2*bits+3, run-time scalar and per-lane) of every integer vector type x configuration must normalise to the saturating shift / funnel-shift closed form of the same lane; amounts are constrained to the documented domain by the argument encoding.",
+   note=TB + "; shift amounts assumed in [0, 2*bits) (superset of the documented [0,bits])", ref="4/C04"),
 }
 
 NA = {
